@@ -266,7 +266,7 @@ void carquet_avx512_prefix_sum_i32(int32_t* values, int64_t count, int32_t initi
 
     /* Handle remaining values */
     for (; i < count; i++) {
-        sum += values[i];
+        sum = (int32_t)((uint32_t)sum + (uint32_t)values[i]);  /* wrap-around, no signed overflow */
         values[i] = sum;
     }
 }
@@ -303,7 +303,7 @@ void carquet_avx512_prefix_sum_i64(int64_t* values, int64_t count, int64_t initi
 
     /* Handle remaining values */
     for (; i < count; i++) {
-        sum += values[i];
+        sum = (int64_t)((uint64_t)sum + (uint64_t)values[i]);  /* wrap-around, no signed overflow */
         values[i] = sum;
     }
 }
@@ -489,7 +489,7 @@ void carquet_avx512_unpack_bools(const uint8_t* input, uint8_t* output, int64_t 
 
     /* Process 64 bools (8 bytes) at a time using AVX-512 mask */
     for (; i + 64 <= count; i += 64) {
-        int byte_idx = (int)(i / 8);
+        size_t byte_idx = (size_t)(i / 8);
         uint64_t packed;
         memcpy(&packed, input + byte_idx, 8);
 
@@ -501,7 +501,7 @@ void carquet_avx512_unpack_bools(const uint8_t* input, uint8_t* output, int64_t 
 
     /* Handle remaining */
     for (; i < count; i++) {
-        int byte_idx = (int)(i / 8);
+        size_t byte_idx = (size_t)(i / 8);
         int bit_idx = (int)(i % 8);
         output[i] = (input[byte_idx] >> bit_idx) & 1;
     }
